@@ -519,6 +519,75 @@ theorem named_take_cols (t : Table) (names : List String) (r : Table) (hw : t.WF
       exact subNames_ne_nil t names hne (List.eq_nil_of_length_eq_zero hl.symm)
     exact ⟨sel, rfl, rfl, rowsOf_selectCols dfl sel t.cols hw.wf hs (fun j hj => hw.ncols ▸ hb j hj)⟩
 
+/-! ### transposed -/
+
+theorem mapM_map_except {β γ δ : Type} (f : γ → Except String δ) (g : β → γ) (l : List β) :
+    (l.map g).mapM f = l.mapM (fun x => f (g x)) := by
+  induction l with
+  | nil => rfl
+  | cons a l ih => simp [List.mapM_cons, ih]
+
+/-- `Table.transposed` on the named layer: the result's header is the new column name followed by `str()` of the
+selected column's cells (row order); its first column holds the OTHER column names (the order `table[:, columns]`
+shows them in); the column made from a row holds that row's other cells in the same order. -/
+theorem named_transposed (t : Table) (newName : String) (selectAs : Option String) (r : Table) (hw : t.WFT)
+    (h : t.transposed newName selectAs = .ok r) :
+    let sname := selectAs.getD (t.header.headD "")
+    let columns := t.subNames (sname :: t.header.filter (· ≠ sname))
+    ∃ s sel names, t.idxsOf columns = .ok (s :: sel) ∧ (s :: sel).map t.name = columns ∧
+      t.rows.mapM (fun row => match (row.getD s dfl).pyStr with | some x => pure x | none => throw "unmodelled") = Except.ok names ∧
+      r.header = newName :: names ∧
+      r.cols = (sname :: t.header.filter (· ≠ sname)).tail.map Cell.str :: t.rows.map (TableOps.proj dfl sel) := by
+  intro sname columns
+  unfold Table.transposed at h
+  simp only [bind, Except.bind, Except.mapError, pure, Except.pure] at h
+  cases e1 : t.idxOf (selectAs.getD (t.header.headD "")) with
+  | error x => rw [e1] at h; simp at h
+  | ok si =>
+    rw [e1] at h
+    simp only [] at h
+    split at h
+    · simp [throw, throwThe, MonadExceptOf.throw] at h
+    · cases e2 : t.idxsOf (t.subNames ((selectAs.getD (t.header.headD "")) :: t.header.filter (· ≠ (selectAs.getD (t.header.headD ""))))) with
+      | error x => rw [e2] at h; simp at h
+      | ok sel0 =>
+        rw [e2] at h
+        obtain ⟨hn, hb, hl⟩ := idxsOf_ok t _ sel0 e2
+        have hs : sel0 ≠ [] := by
+          intro e0; subst e0; simp at hl
+          exact subNames_ne_nil t _ (by simp) (List.eq_nil_of_length_eq_zero hl.symm)
+        have hd := rowsOf_selectCols dfl sel0 t.cols hw.wf hs (fun j hj => hw.ncols ▸ hb j hj)
+        obtain ⟨s, sel, rfl⟩ := List.exists_cons_of_ne_nil hs
+        simp only [hd] at h
+        unfold TableRows.select at h
+        rw [mapM_map_except] at h
+        generalize e3 : List.mapM (m := Except String) (β := String) _ (rowsOf dfl t.cols) = M at h
+        cases M with
+        | error x => simp at h
+        | ok names =>
+          simp only [Except.ok.injEq] at h
+          subst h
+          refine ⟨s, sel, names, rfl, hn, ?_, rfl, ?_⟩
+          · rw [← e3]; unfold Table.rows
+            congr 1
+          · simp [Table.rows, sname, TableRows.proj, TableOps.proj]
+
+/-- with the index column absent or selected as the header column, `table[:, columns]` keeps the requested order:
+the column named by `select_as_header` supplies the new column names, the other columns follow in header order -/
+theorem named_transposed_indexOK (t : Table) (newName : String) (selectAs : Option String) (r : Table) (hw : t.WFT)
+    (hi : IndexOK t (selectAs.getD (t.header.headD "") :: t.header.filter (· ≠ selectAs.getD (t.header.headD ""))))
+    (h : t.transposed newName selectAs = .ok r) :
+    ∃ s sel names, t.name s = selectAs.getD (t.header.headD "") ∧
+      sel.map t.name = t.header.filter (· ≠ selectAs.getD (t.header.headD "")) ∧
+      t.rows.mapM (fun row => match (row.getD s dfl).pyStr with | some x => pure x | none => throw "unmodelled") = Except.ok names ∧
+      r.header = newName :: names ∧
+      r.cols = (sel.map fun j => Cell.str (t.name j)) :: t.rows.map (TableOps.proj dfl sel) := by
+  obtain ⟨s, sel, names, _, hn, hm, hh, hc⟩ := named_transposed t newName selectAs r hw h
+  rw [subNames_of_indexOK t _ hi] at hn
+  simp only [List.map_cons, List.cons.injEq] at hn
+  refine ⟨s, sel, names, hn.1, hn.2, hm, hh, ?_⟩
+  rw [hc, List.tail_cons, ← hn.2, List.map_map]; rfl
+
 /-! ### sorted: the key record of the model is `keyT` of the requested transforms -/
 
 /-- the per-field transform `Table.sorted` applies: identity, `_reverse_num`, or the negated dense rank -/
